@@ -22,16 +22,17 @@ VARIABLES l, tid, cfg,    \* cfg: the reset line of the current run
           emitted,        \* [node -> sequence of kinds emitted]
           rets,           \* set of [node, returned, ok, pub]
           signbad,        \* "none" | "ok" | "bad" | "panic"
+          inited,         \* nodes whose back end has been initialised
           sgrets,         \* orchestrated signing: set of [node, returned, ok, verified]
           crashed, drift, viol
 
-vars == <<l, tid, cfg, got, first, emitted, rets, signbad, sgrets, crashed, drift, viol>>
+vars == <<l, tid, cfg, got, first, inited, emitted, rets, signbad, sgrets, crashed, drift, viol>>
 Line == Trace[l]
 Rng(s) == {s[i] : i \in DOMAIN s}
 
 NoCfg == [n |-> 0, th |-> 0, ids |-> <<>>, byz |-> FALSE, fault |-> [silent_peer |-> 0, after |-> 0, withhold_idx |-> -1], scheme |-> "", mode |-> ""]
 
-Init == /\ l = 1 /\ tid = -1 /\ cfg = NoCfg /\ got = <<>> /\ first = <<>> /\ emitted = <<>> /\ rets = {} /\ signbad = "none" /\ sgrets = {}
+Init == /\ l = 1 /\ tid = -1 /\ cfg = NoCfg /\ got = <<>> /\ first = <<>> /\ inited = {} /\ emitted = <<>> /\ rets = {} /\ signbad = "none" /\ sgrets = {}
         /\ crashed = FALSE /\ drift = "" /\ viol = {}
 
 Nodes == Rng(cfg.ids)
@@ -49,11 +50,13 @@ Reset ==
   /\ got' = IF "ids" \in DOMAIN Line THEN [x \in Rng(Line.ids) |-> [k \in 1..3 |-> {}]] ELSE <<>>
   /\ emitted' = IF "ids" \in DOMAIN Line THEN [x \in Rng(Line.ids) |-> <<>>] ELSE <<>>
   /\ first' = IF "ids" \in DOMAIN Line THEN [x \in Rng(Line.ids) |-> {}] ELSE <<>>
+  /\ inited' = {}
   /\ rets' = {} /\ signbad' = "none" /\ sgrets' = {} /\ crashed' = FALSE /\ drift' = "" /\ viol' = {}
 
 InitEv ==
   /\ Line.e = "init"
   /\ SetDrift(IF Line.parties = cfg.ids /\ Line.threshold = cfg.th THEN "" ELSE "Init arguments differ from the configuration")
+  /\ inited' = inited \cup {Line.node}
   /\ UNCHANGED <<tid, cfg, got, first, emitted, rets, signbad, sgrets, crashed, viol>>
 
 OnMsgEv ==
@@ -62,7 +65,9 @@ OnMsgEv ==
   /\ first' = IF Line.kind \in 2..3 /\ Line.node \in DOMAIN first /\ ~\E x \in first[Line.node] : x[1] = Line.kind /\ x[2] = Line.from
                  THEN [first EXCEPT ![Line.node] = @ \cup {<<Line.kind, Line.from, Line.h>>}] ELSE first
   /\ SetDrift(IF Line.kind \in 1..3 /\ Line.bc # (Line.kind # 1) THEN "message class differs from the protocol (shares are point-to-point, commitments and reveals broadcast)" ELSE "")
-  /\ UNCHANGED <<tid, cfg, emitted, rets, signbad, sgrets, crashed, viol>>
+  \* C01: the barrier of the orchestrator: no protocol message is handed to a back end that has not been initialised
+  /\ Check({<<"InitBeforeFirstMessage", Line.node \in inited>>})
+  /\ UNCHANGED <<tid, cfg, inited, emitted, rets, signbad, sgrets, crashed>>
 
 \* a message emitted by the back end of an honest node: the phase structure of DKG.tla
 SendEv ==
@@ -78,27 +83,27 @@ SendEv ==
                  ELSE "")
      /\ Check({\* C05: no honest party discloses its public-key contribution before it holds the commitments of all others
                <<"RevealOnlyAfterAllCommits", (honest /\ Line.kind = 3) => got[x][2] = others>>})
-  /\ UNCHANGED <<tid, cfg, got, first, rets, signbad, sgrets, crashed>>
+  /\ UNCHANGED <<tid, cfg, got, first, inited, rets, signbad, sgrets, crashed>>
 
 RetEv ==
   /\ Line.e = "kgret"
   /\ rets' = rets \cup {[node |-> Line.node, returned |-> Line.returned, ok |-> Line.ok, pub |-> Line.pub]}
-  /\ UNCHANGED <<tid, cfg, got, first, emitted, signbad, sgrets, crashed, drift, viol>>
+  /\ UNCHANGED <<tid, cfg, got, first, inited, emitted, signbad, sgrets, crashed, drift, viol>>
 
 SignEv ==
   /\ Line.e = "signcheck"
   /\ signbad' = IF Line.panic # "" THEN "panic" ELSE IF Len(Line.bad) > 0 THEN "bad" ELSE "ok"
-  /\ UNCHANGED <<tid, cfg, got, first, emitted, rets, sgrets, crashed, drift, viol>>
+  /\ UNCHANGED <<tid, cfg, got, first, inited, emitted, rets, sgrets, crashed, drift, viol>>
 
 SgRetEv ==
   /\ Line.e = "sgret"
   /\ sgrets' = sgrets \cup {[node |-> Line.node, returned |-> Line.returned, ok |-> Line.ok, verified |-> Line.verified]}
-  /\ UNCHANGED <<tid, cfg, got, first, emitted, rets, signbad, crashed, drift, viol>>
+  /\ UNCHANGED <<tid, cfg, got, first, inited, emitted, rets, signbad, crashed, drift, viol>>
 
 CrashEv ==
   /\ Line.e = "crash"
   /\ crashed' = TRUE
-  /\ UNCHANGED <<tid, cfg, got, first, emitted, rets, signbad, sgrets, drift, viol>>
+  /\ UNCHANGED <<tid, cfg, got, first, inited, emitted, rets, signbad, sgrets, drift, viol>>
 
 EndEv ==
   /\ Line.e = "end"
@@ -122,9 +127,12 @@ EndEv ==
           <<"CommitmentBinding", \A r \in oks : r.node \in DOMAIN first =>
                  \A c \in {x \in first[r.node] : x[1] = 2} : \A v \in {x \in first[r.node] : x[1] = 3 /\ x[2] = c[2]} : v[3] = c[3]>>,
           <<"NoCrash", ~crashed>>,
+          \* C01: the two synchronisation barriers: in a fault-free run no protocol message reaches a party before that party has
+          \* registered the session (the dispatcher would have to drop it)
+          <<"NoMessageBeforeRegistered", (~Faulty /\ ~crashed /\ "cancel" \notin DOMAIN cfg /\ "early" \in DOMAIN Line) => Line.early = 0>>,
           <<"NoPanicInUse", signbad # "panic">>})
      /\ PrintT(<<"END", ToJson([t |-> tid, drift |-> drift, completed |-> Cardinality(oks), crashed |-> crashed])>>)
-  /\ UNCHANGED <<tid, cfg, got, first, emitted, rets, signbad, sgrets, crashed, drift>>
+  /\ UNCHANGED <<tid, cfg, got, first, inited, emitted, rets, signbad, sgrets, crashed, drift>>
 
 Next == /\ l <= Len(Trace) /\ l' = l + 1
         /\ (Reset \/ InitEv \/ OnMsgEv \/ SendEv \/ RetEv \/ SignEv \/ SgRetEv \/ CrashEv \/ EndEv)
